@@ -17,15 +17,16 @@ import (
 // ---------------------------------------------------------------------------
 
 type chainState struct {
-	entries   []*Entry
-	byMarker  map[string][]*Entry
-	byIK      map[string][]*Entry
-	byMatch   map[string][]*Entry
-	byTxID    map[string]*Entry
-	revertsOf map[string][]*Entry
-	byRef     map[string][]*Entry
-	model     map[string]*big.Int // balances folded from the log
-	nextTx    int64
+	entries     []*Entry
+	byMarker    map[string][]*Entry
+	byIK        map[string][]*Entry
+	byMatch     map[string][]*Entry
+	byTxID      map[string]*Entry
+	revertsOf   map[string][]*Entry
+	byRef       map[string][]*Entry
+	effectsByIK map[string][]*Entry
+	model       map[string]*big.Int // balances folded from the log
+	nextTx      int64
 }
 
 func (c *chainState) init() {
@@ -36,6 +37,7 @@ func (c *chainState) init() {
 		c.byTxID = map[string]*Entry{}
 		c.revertsOf = map[string][]*Entry{}
 		c.byRef = map[string][]*Entry{}
+		c.effectsByIK = map[string][]*Entry{}
 		c.model = map[string]*big.Int{}
 	}
 }
@@ -265,6 +267,16 @@ func (s *Sim) checkFunds(li *ledgerInst, c *chainState, e *Entry) {
 // checkCommitUniqueness: at most one entry per idempotency key (C07), per
 // reference (C11), per reverted transaction (C10); evaluated at every commit.
 func (s *Sim) checkCommitUniqueness(li *ledgerInst, c *chainState, e *Entry) {
+	// C07, by request: entries produced by requests that carried the same key
+	if e.Marker != "" && s.wants("C07") {
+		if o := s.opByMarker(e.Marker); o != nil && o.Op.IK != "" && o.Ledger == li.idx {
+			c.effectsByIK[o.Op.IK] = append(c.effectsByIK[o.Op.IK], e)
+			if es := c.effectsByIK[o.Op.IK]; len(es) > 1 {
+				s.violate("C07", "ik-applied-twice", fmt.Sprintf("%s: requests carrying idempotency key %q took effect as entries %d (%s) and %d (%s)", li.name, o.Op.IK, es[0].Idx, es[0].Type, e.Idx, e.Type),
+					append(s.restartFeature(es[0], e), "kind="+o.Op.Kind)...)
+			}
+		}
+	}
 	if ik := e.Row.IK; ik != "" && len(c.byIK[ik]) > 1 && s.wants("C07") {
 		a, b := c.byIK[ik][0], e
 		s.violate("C07", "ik-applied-twice", fmt.Sprintf("%s: idempotency key %q is carried by entries %d and %d", li.name, ik, a.Idx, b.Idx), s.restartFeature(a, b)...)
@@ -404,13 +416,16 @@ func (s *Sim) onReturn(o *OpRecord, li *ledgerInst) {
 			e = es[len(es)-1]
 			replay = e.MatchKey != o.matchKey() || (e.Marker != "" && e.Marker != o.Marker)
 		}
-	} else if es := c.byMatch[o.matchKey()]; len(es) > 0 {
-		e = es[len(es)-1]
-		if o.Op.Kind == "revert" && o.Tx != nil {
-			e = nil
-			for _, x := range es {
-				if x.Tx != nil && bigEq(x.Tx.ID, o.Tx.ID) {
-					e = x
+	}
+	if e == nil {
+		if es := c.byMatch[o.matchKey()]; len(es) > 0 {
+			e = es[len(es)-1]
+			if o.Op.Kind == "revert" && o.Tx != nil {
+				e = nil
+				for _, x := range es {
+					if x.Tx != nil && bigEq(x.Tx.ID, o.Tx.ID) {
+						e = x
+					}
 				}
 			}
 		}
@@ -445,8 +460,18 @@ func (s *Sim) onReturn(o *OpRecord, li *ledgerInst) {
 		s.violate("C07", "ik-replay-of-other-kind", fmt.Sprintf("%s: request %s (ik %q) got a transaction but the stored effect (entry %d) is a %s", li.name, o.Name, o.Op.IK, e.Idx, e.Type))
 	}
 	// C16: every persisted change is published at least once, before the answer
-	if o.published == 0 && s.wants("C16") && !s.cur.dead.Load() {
-		s.violate("C16", "committed-change-not-published", fmt.Sprintf("%s: request %s (%s) was answered with success, its entry %d is persisted, but no event was published", li.name, o.Name, o.Op.Kind, e.Idx), "kind="+o.Op.Kind)
+	// (judged per entry: an idempotent replay answers from an entry that its original request published)
+	published := e.Published > 0
+	if o.Op.Kind == "delmeta" && !replay {
+		// entries deleting the same key of the same target are indistinguishable: judge by the request
+		published = o.published > 0
+	}
+	if replay {
+		// the producing request publishes before its own answer; a replay may be answered in between
+		published = true
+	}
+	if !published && s.wants("C16") && !s.cur.dead.Load() {
+		s.violate("C16", "committed-change-not-published", fmt.Sprintf("%s: request %s (%s) was answered with success, entry %d (%s) is persisted, but no event describing that entry has been published", li.name, o.Name, o.Op.Kind, e.Idx, e.Type), "kind="+o.Op.Kind, "type="+e.Type)
 	}
 }
 
@@ -521,6 +546,7 @@ func (s *Sim) onPublish(p *PubRecord) {
 				s.violate("C16", "event-without-entry", fmt.Sprintf("%s: COMMITTED_TRANSACTIONS announces transaction %s at step %d but no persisted NEW_TRANSACTION entry carries it", name, tx.ID, s.sched.step), "type=COMMITTED_TRANSACTIONS")
 				continue
 			}
+			e.Published++
 			if d := txDiff(tx, e.Tx); d != "" {
 				s.violate("C16", "event-differs-from-entry", fmt.Sprintf("%s: COMMITTED_TRANSACTIONS for transaction %s differs from entry %d: %s", name, tx.ID, e.Idx, d), "type=COMMITTED_TRANSACTIONS")
 			}
@@ -540,6 +566,7 @@ func (s *Sim) onPublish(p *PubRecord) {
 		}
 		e := c.byTxID[revert.ID.String()]
 		if e != nil && e.Type == "REVERTED_TRANSACTION" && e.RevertedID == reverted.ID.String() {
+			e.Published++
 			if d := txDiff(revert, e.Tx); d != "" {
 				s.violate("C16", "event-differs-from-entry", fmt.Sprintf("%s: REVERTED_TRANSACTION: revertTransaction differs from entry %d: %s", name, e.Idx, d), "type=REVERTED_TRANSACTION")
 			}
@@ -572,14 +599,39 @@ func (s *Sim) onPublish(p *PubRecord) {
 			s.violate("C16", "event-without-entry", fmt.Sprintf("%s: SAVED_METADATA on %s %s matches no persisted entry at step %d", name, tt, tid, s.sched.step), "type=SAVED_METADATA")
 			return
 		}
+		found.Published++
 		if found.TargetType != tt || found.TargetID != tid || !metaEqual(found.Meta, md) {
 			s.violate("C16", "event-differs-from-entry", fmt.Sprintf("%s: SAVED_METADATA says %s %s %v, entry %d says %s %s %v", name, tt, tid, md, found.Idx, found.TargetType, found.TargetID, found.Meta), "type=SAVED_METADATA")
 		}
 	case "DELETED_METADATA":
 		tt, tid, key := asString(pl["targetType"]), asString(pl["targetId"]), asString(pl["key"])
-		if len(c.byMatch["del:"+tt+":"+tid+":"+key]) == 0 {
+		es := c.byMatch["del:"+tt+":"+tid+":"+key]
+		if len(es) == 0 {
 			s.violate("C16", "event-without-entry", fmt.Sprintf("%s: DELETED_METADATA on %s %s key %q matches no persisted entry at step %d", name, tt, tid, key, s.sched.step), "type=DELETED_METADATA")
+			return
 		}
+		// attribute the event to the least-published matching entry
+		// (entries for the same target and key have the same content; they differ at most by
+		// their idempotency key, which identifies the publishing request's own entry)
+		cand := es
+		if p.Op != nil {
+			var own []*Entry
+			for _, x := range es {
+				if x.Row.IK == p.Op.Op.IK {
+					own = append(own, x)
+				}
+			}
+			if len(own) > 0 {
+				cand = own
+			}
+		}
+		best := cand[0]
+		for _, x := range cand {
+			if x.Published < best.Published {
+				best = x
+			}
+		}
+		best.Published++
 	default:
 		s.violate("C16", "event-unknown-type", fmt.Sprintf("%s: event of unknown type %q", name, env.Type))
 	}
@@ -759,6 +811,41 @@ func (s *Sim) finalC07(li int, name string, c *chainState) {
 			byIK[o.Op.IK] = append(byIK[o.Op.IK], o)
 		}
 	}
+	// marker-less kinds (revert, delete metadata): when every request for a match key carried the
+	// same idempotency key, at most one entry may exist for it
+	type mk struct {
+		iks    map[string]bool
+		kind   string
+		hasAny bool
+	}
+	byKey := map[string]*mk{}
+	for _, o := range s.ledgerOps(li) {
+		if (o.Op.Kind != "revert" && o.Op.Kind != "delmeta") || o.Op.DryRun || !o.Invoked {
+			continue
+		}
+		k := o.matchKey()
+		if byKey[k] == nil {
+			byKey[k] = &mk{iks: map[string]bool{}, kind: o.Op.Kind}
+		}
+		byKey[k].iks[o.Op.IK] = true
+	}
+	mkeys := make([]string, 0, len(byKey))
+	for k := range byKey {
+		mkeys = append(mkeys, k)
+	}
+	sort.Strings(mkeys)
+	for _, k := range mkeys {
+		m := byKey[k]
+		if len(m.iks) == 1 && !m.iks[""] && len(c.byMatch[k]) > 1 {
+			var ik string
+			for x := range m.iks {
+				ik = x
+			}
+			es := c.byMatch[k]
+			s.violate("C07", "ik-applied-twice", fmt.Sprintf("%s: every request for %q carried idempotency key %q, yet %d entries exist (%d, %d, ...)", name, k, ik, len(es), es[0].Idx, es[1].Idx),
+				append(s.restartFeature(es[0], es[1]), "kind="+m.kind)...)
+		}
+	}
 	iks := make([]string, 0, len(byIK))
 	for k := range byIK {
 		iks = append(iks, k)
@@ -854,8 +941,16 @@ func (s *Sim) finalC11(li int, name string, c *chainState) {
 			case "tx:CONFLICT", "store-error", "cancelled", "in-flight-conflict", "dead", "panic":
 				continue
 			}
-			if o.success() && o.Op.IK != "" && o.entryAtReturn >= 0 && c.entries[o.entryAtReturn].Marker != o.Marker {
-				continue // answered from an earlier effect of its idempotency key
+			if o.success() && o.Op.IK != "" {
+				replayed := false
+				for _, x := range c.byIK[o.Op.IK] {
+					if x.Marker != o.Marker {
+						replayed = true
+					}
+				}
+				if replayed {
+					continue // answered from an earlier effect of its idempotency key
+				}
 			}
 			s.violate("C11", "late-duplicate-not-conflict", fmt.Sprintf("%s: %s was invoked (step %d) after %s had been acknowledged (step %d) with the same reference %q, and ended with %q instead of a conflict", name, o.Name, o.InvokeStep, h.Name, h.ReturnStep, h.Op.Ref, o.ErrClass), "outcome="+o.ErrClass)
 		}
